@@ -2518,6 +2518,8 @@ lys_precompile_mod_augments_deviations(struct lysp_module *pmod, struct ly_set *
     }
 
 cleanup:
+    /* always needed when using lysc_update_path() */
+    ly_log_location_revert(0, 0, 1, 0);
     ly_set_erase(&set, NULL);
     return ret;
 }
